@@ -44,9 +44,12 @@ CHECKS = {
         text="X691.tla is the independent reference encoder written from the standard, itself validated by Trace_Fixtures.tla against 60 "
              "third-party (asn1.io playground) expectations found in the repository. For every type of the zoo inside the conformance "
              "profile and every value of its family the real writer's bits must equal Enc(t, v) and the real reader, fed the reference "
-             "bits, must return v and stop exactly at their end.",
-        design_ref="DESIGN.md sections 4 and 7, C02",
-        note="Trusted: my reading of X.691 as far as it is not pinned by the fixtures; TLC; zoogen's printing of the types as ASN.1 text.",
+             "bits, must return v and stop exactly at their end. The reference includes the rules the implementation does not follow "
+             "(14.1 enumeration index by value, 23.2 choice index by canonical tag order, 13.2.3 semi-constrained INTEGER (lb..MAX), "
+             "16.2 named bit strings): each is an open finding whose input class carries the exact prediction of what the code does.",
+        design_ref="DESIGN.md sections 4 and 7, C02; 11.3, 11.7",
+        note="Trusted: my reading of X.691 as far as it is not pinned by the fixtures; TLC; zoogen's printing of the types as ASN.1 text. "
+             "Inside the class of an open finding the writer's bits must equal the predicted deviation and everything else must hold.",
         technique="TLA+ reference encoder validated on third-party fixtures + TLC enumeration replayed into macro-generated code"),
     "C03": dict(
         category="model_checking",
@@ -83,8 +86,10 @@ CHECKS = {
              "permutation (SEQUENCE: identity) for ALL ordered selections of 3 (quick) / 4 (thorough) components from a pool of 11 tag "
              "situations x marker positions. For every one of them the order of write_seq/read_seq and the constants produced by the real "
              "macro pipeline (run time) must equal the specification; a compiled sample is encoded and compared bit for bit with X691!Enc "
-             "in wire order.",
-        design_ref="DESIGN.md section 7, C16",
+             "in wire order. MC_SetsImport.tla adds the rule across modules (the tag of an untagged reference is decided in the module "
+             "that defines the referenced type): 7 488 SET / SEQUENCE definitions over imported aliases, an imported untagged CHOICE and "
+             "local types of the same names with other tags, both load orders.",
+        design_ref="DESIGN.md section 7, C16; 11.6 (fifth round)",
         note="Automatic tagging inside an untagged CHOICE used as SET component is outside the pool (asn1rs and X.680 differ there in ways the "
              "property does not pin down).",
         technique="TLA+ tag-order model + TLC permutation enumeration checked against the real macro expansion and compiled code"),
@@ -135,8 +140,9 @@ CHECKS = {
              "and Canon, the canonical projection a faithful parser must deliver (X.680 equivalences applied). TLC enumerates the universe "
              "and checks well-formedness; every definition is printed to ASN.1 text, parsed and resolved by the real front end, and a "
              "canonical JSON projection of the model's public fields must equal Canon - order, names, kinds, ranges, named numbers, sizes "
-             "with extensibility, tags with class, OPTIONAL/DEFAULT and literals, marker positions; plus module-level forms (OIDs, IMPORTS, "
-             "value references).",
+             "with extensibility, tags with class, OPTIONAL/DEFAULT and literals, marker positions; plus MC_Modules.tla (every header form x "
+             "every sequence of <= 3 IMPORTS clauses with / without object identifier) and MC_Literals.tla (every short hstring, bstring and "
+             "character string as value assignment and as DEFAULT).",
         design_ref="DESIGN.md section 7, C07",
         note="One spelling per AST node (layout variation is C13); the projection code in harness/src/canon.rs is trusted.",
         technique="TLA+ abstract-syntax universe with canonical projection, TLC-enumerated, compared with the real parser's model"),
